@@ -18,7 +18,7 @@ from rv.fingerprint import fp, diff
 
 ANCHORS = ['process_beads_table', 'process_samples_table', 'add_beads_stats', 'add_samples_stats', 'generate_histograms_table']      # functions the property is anchored in: never entered => inconclusive
 LEVEL = 'fault_enumeration'
-LEVEL_TEXT = 'Fault enumeration: every assignment of {none} + 14 documented fault kinds to the rows of 1-2 (quick) / 1-3 (thorough) row tables, random larger tables, permutations, bead-row faults and empty tables on the real workflow; healthy rows compared bit for bit with single-row runs. Exhaustive over the assignments for the stated table sizes.'
+LEVEL_TEXT = 'Fault enumeration: every assignment of {none} + 19 fault kinds (the documented row errors in their variants) to the rows of 1-2 (quick) / 1-3 (thorough) row tables, random larger tables, permutations, bead-row faults and empty tables on the real workflow; healthy rows compared bit for bit with single-row runs. Exhaustive over the assignments for the stated table sizes.'
 TECHNIQUE = 'fault enumeration over row-fault assignments + batch-vs-single-row history checker on the real Excel workflow'
 RULE = ('sample tables of 1..5 rows over generated FCS files x every assignment of {none, missing file, <400 events, '
         'fraction<0, fraction>1, unknown units, calibration failed / absent / no curve for channel, beads of another '
@@ -38,6 +38,8 @@ FAULTS = ['missing-file', 'few-events', 'fraction-neg', 'fraction-big', 'fractio
           # the same mismatches seen from the sample's side: the row shares the *healthy* rows' beads (Bgood) but its own
           # file / instrument differs, so any per-beads memo of a passed check would wrongly let it through
           'sample-other-instrument', 'sample-other-amp', 'sample-other-voltage',
+          # the row's file records a detector voltage of 0 (a value, not an absent one) while the beads record another
+          'sample-other-voltage-zero',
           # only the row's SECOND calibrated channel was acquired with other settings than the beads (the first agrees)
           'sample-other-amp-2nd', 'sample-other-voltage-2nd']
 
@@ -84,6 +86,7 @@ def build_world(F, rng, base, int_ids=False):
     excelgen.sample_file(rng, i0, os.path.join(base, 's_few.fcs'), n=380)
     excelgen.sample_file(rng, i0, os.path.join(base, 's_volt.fcs'), n=460, voltage=[str(777 + j) for j in range(D)])
     excelgen.sample_file(rng, i0, os.path.join(base, 's_amp.fcs'), n=460, amp_log=False)
+    excelgen.sample_file(np.random.default_rng(110), i0, os.path.join(base, 's_volt0.fcs'), n=460, voltage=['0'] * D)
     excelgen.sample_file(rng, i0, os.path.join(base, 's_volt2.fcs'), n=460, fl_overrides={1: {'pnv': '999'}})
     excelgen.sample_file(rng, i0, os.path.join(base, 's_amp2.fcs'), n=460, fl_overrides={1: {'pne': '0,0'}})
     healthy = [dict(fp=files[0], u1='MEF', u2='a.u.', gf=0.5, beads='Bgood'),
@@ -123,7 +126,7 @@ def apply_fault(h, kind, variant=0):
         if kind == 'sample-other-instrument':
             r['iid'] = 'I1'
         else:
-            r['fp'] = {'sample-other-amp': 's_amp.fcs', 'sample-other-voltage': 's_volt.fcs',
+            r['fp'] = {'sample-other-amp': 's_amp.fcs', 'sample-other-voltage': 's_volt.fcs', 'sample-other-voltage-zero': 's_volt0.fcs',
                        'sample-other-amp-2nd': 's_amp2.fcs', 'sample-other-voltage-2nd': 's_volt2.fcs'}[kind]
             if kind.endswith('-2nd'):
                 r['u2'] = 'MEF'
